@@ -1,7 +1,7 @@
 #!/bin/bash
 # usage: tools/verify_seed.sh Cxx  -> checks patch matches, demo on both trees, then runs the check on the worktree
 id=$1
-prop=${id%r[234]}
+prop=${id%r[2345]}
 cd /tmp/seed_$id && git diff > /tmp/cur_$id.diff; diff -q /tmp/cur_$id.diff /tmp/seedout_$id/patch.diff >/dev/null && echo "diff matches patch.diff" || echo "WARNING: worktree diff differs from patch.diff"
 (PYTHONPATH=/tmp/seed_$id timeout 1200 /venv/bin/python /tmp/seedout_$id/demo.py > /tmp/demo_mod_$id.log 2>&1; echo "demo on modified tree: exit $?"; tail -1 /tmp/demo_mod_$id.log | cut -c1-200)
 (PYTHONPATH=/repo timeout 1200 /venv/bin/python /tmp/seedout_$id/demo.py > /tmp/demo_orig_$id.log 2>&1; echo "demo on /repo: exit $?"; tail -1 /tmp/demo_orig_$id.log | cut -c1-200)
